@@ -4,7 +4,7 @@
 From Coq Require Import List Arith NArith ZArith Bool String.
 From Coq.Strings Require Import Byte.
 From Peppi Require Import Base.Bytes Base.Outcome Gen.Funs Model.Ubjson Model.Start Model.Parse Model.Reader Model.Writer Model.Recorder
-  Proofs.Totality Proofs.ReadProof Proofs.Truncation Proofs.Examples.
+  Model.Slpp Proofs.Totality Proofs.ReadProof Proofs.Truncation Proofs.SlppCut Proofs.Examples.
 Import ListNotations.
 
 (* a successful read is unchanged by appending bytes, except that the appended bytes stay unread: the result never
@@ -26,6 +26,16 @@ Theorem C07_truncated_skip : forall r st h p suf,
   exists e, slp_read {| o_skip := true; o_hash := h |} p = Err e.
 Proof. exact truncated_skip. Qed.
 
+(* .slpp, at the granularity of archive entries (Model/Slpp.v; no hypothesis on the codecs is needed): the writer emits
+   frames.arrow last, so an archive cut at ANY entry boundary lacks it and is rejected, with and without skip_frames
+   -- never read as a game with empty frames.  (Cuts inside an entry and tar/Arrow framing are library behaviour:
+   exhaustive prefix runs on the real reader.) *)
+Theorem C07_slpp_cut_rejected :
+  forall enc_peppi dec_peppi enc_meta dec_meta enc_start enc_end enc_frames dec_frames skip c g es pre suf,
+  slpp_write enc_peppi enc_meta enc_start enc_end enc_frames c g = Ok es -> es = (pre ++ suf)%list -> suf <> [] ->
+  exists e, slpp_read dec_peppi dec_meta dec_frames skip pre = Err e.
+Proof. exact slpp_cut_rejected. Qed.
+
 Theorem C07_nonvacuous :
   (wf_replay ex_r37 = true /\ res_is_ok (game_start (r_start ex_r37)) = true /\ finished ex_r37 = true) /\
   (wf_replay ex_r10 = true /\ res_is_ok (game_start (r_start ex_r10)) = true /\ finished ex_r10 = true).
@@ -34,4 +44,5 @@ Proof. exact (conj ex_r37_wf ex_r10_wf). Qed.
 Print Assumptions C07_read_extends.
 Print Assumptions C07_truncated_full.
 Print Assumptions C07_truncated_skip.
+Print Assumptions C07_slpp_cut_rejected.
 Print Assumptions C07_nonvacuous.
